@@ -1352,6 +1352,99 @@ def gen_cli():
             "  let '(num, rounds) := norm_refine (ro_refine_num o) (ro_refine_rounds o) in\n  " + plan_t + ".\n")
 
 
+def gen_cli_validate():
+    """cli._validate_output_dir(out_dir, overwrite): a decision tree over three observations of the
+    directory (exists(), is_dir(), any(iterdir())) and the flag; leaves: nothing / raise / rmtree followed
+    by mkdir of the same directory.  Any other statement, condition or leaf is a failed translation.  The
+    two commands must call it as _validate_output_dir(out_dir, overwrite) before anything else touches
+    out_dir."""
+    tree = ast.parse((REPO / "bblean/cli.py").read_text())
+    fn = find_func(tree, "_validate_output_dir")
+    args = [a.arg for a in fn.args.args]
+    if args != ["out_dir", "overwrite"] or fn.args.vararg or fn.args.kwarg or fn.args.kwonlyargs:
+        raise Unsupported(f"_validate_output_dir: parameters {args}")
+    dflt = fn.args.defaults
+    if len(dflt) != 1 or not (isinstance(dflt[0], ast.Constant) and dflt[0].value is False):
+        raise Unsupported("_validate_output_dir: default of overwrite is not False")
+    CONDS = {"out_dir.exists()": "exists_", "out_dir.is_dir()": "is_dir",
+             "any(out_dir.iterdir())": "nonempty", "overwrite": "overwrite"}
+
+    def cond(e):
+        if isinstance(e, ast.UnaryOp) and isinstance(e.op, ast.Not):
+            return f"(negb {cond(e.operand)})"
+        if isinstance(e, ast.BoolOp):
+            op = "andb" if isinstance(e.op, ast.And) else "orb"
+            out = cond(e.values[0])
+            for v in e.values[1:]:
+                out = f"({op} {out} {cond(v)})"
+            return out
+        s = ast.unparse(e)
+        if s in CONDS:
+            return CONDS[s]
+        fail(e, "_validate_output_dir: unknown condition")
+
+    def msg_kind(e):
+        # the two messages are told apart by their text: "... should be a dir" / "... has files"
+        txt = "".join(v.value for v in ast.walk(e) if isinstance(v, ast.Constant) and isinstance(v.value, str))
+        if "should be a dir" in txt:
+            return "VdErrNotDir"
+        if "has files" in txt:
+            return "VdErrHasFiles"
+        fail(e, "_validate_output_dir: unknown error message")
+
+    def block(stmts, rest):
+        """result of running stmts and then `rest` (a coq term)"""
+        if not stmts:
+            return rest
+        st, tl = stmts[0], stmts[1:]
+        if isinstance(st, ast.Expr) and isinstance(st.value, ast.Constant) and isinstance(st.value.value, str):
+            return block(tl, rest)            # docstring
+        if isinstance(st, ast.Pass):
+            return block(tl, rest)
+        if isinstance(st, ast.If):
+            return (f"(if {cond(st.test)} then {block(st.body + tl, rest)} "
+                    f"else {block(st.orelse + tl, rest)})")
+        if isinstance(st, ast.Raise):
+            e = st.exc
+            if not (isinstance(e, ast.Call) and ast.unparse(e.func) == "RuntimeError" and len(e.args) == 1):
+                fail(st, "_validate_output_dir: raise of something else than RuntimeError(msg)")
+            return msg_kind(e.args[0])
+        if isinstance(st, ast.Expr) and ast.unparse(st.value) == "shutil.rmtree(out_dir)":
+            if not (tl and isinstance(tl[0], ast.Expr) and ast.unparse(tl[0].value) in
+                    ("out_dir.mkdir()", "out_dir.mkdir(exist_ok=True)")):
+                fail(st, "_validate_output_dir: rmtree(out_dir) is not followed by out_dir.mkdir()")
+            if rest != "VdOk":
+                fail(st, "_validate_output_dir: clearing inside a nested continuation")
+            after = block(tl[1:], "VdOk")
+            if after != "VdOk":
+                fail(st, "_validate_output_dir: statements after the directory was cleared")
+            return "VdCleared"
+        if isinstance(st, ast.Return) and st.value is None:
+            return rest if rest in ("VdOk",) else fail(st, "_validate_output_dir: return")
+        fail(st, "_validate_output_dir: statement outside the recognised shapes")
+
+    body_t = block(list(fn.body), "VdOk")
+    # call sites: every command that validates calls _validate_output_dir(out_dir, overwrite)
+    sites = []
+    for f in ast.walk(tree):
+        if isinstance(f, ast.FunctionDef) and f.name != "_validate_output_dir":
+            for c in ast.walk(f):
+                if isinstance(c, ast.Call) and ast.unparse(c.func) == "_validate_output_dir":
+                    s = ast.unparse(c)
+                    if s not in ("_validate_output_dir(out_dir, overwrite)",
+                                 "_validate_output_dir(out_dir, overwrite=overwrite)"):
+                        raise Unsupported(f"line {c.lineno}: {f.name} calls {s}")
+                    sites.append(f.name)
+    for need in ("_run", "_multiround"):
+        if need not in sites:
+            raise Unsupported(f"{need} does not call _validate_output_dir(out_dir, overwrite)")
+    hdr = ("(* GENERATED by /verif/translator/py2coq.py from bblean/cli.py (_validate_output_dir) — do not edit. *)\n"
+           "From BB Require Import Model.Cli.\nFrom Coq Require Import Bool String List.\nImport ListNotations.\n")
+    return (hdr + "\nDefinition validate_out (exists_ is_dir nonempty overwrite : bool) : vd_result :=\n  "
+            + body_t + ".\n\nDefinition validate_call_sites : list string := ["
+            + "; ".join(f'"{s}"%string' for s in sorted(set(sites))) + "].\n")
+
+
 def write_if_changed(path: Path, text: str):
     if path.exists() and path.read_text() == text:
         return False
@@ -1393,6 +1486,7 @@ def main():
     attempt("GMr", gen_mr)
     attempt("GMrDel", gen_mr_del)
     attempt("GCli", gen_cli)
+    attempt("GCliVd", gen_cli_validate)
     for k, v in status.items():
         print(f"translate {k}: {v}")
     return 0 if all(v == "ok" for v in status.values()) else 1
